@@ -40,9 +40,9 @@ def main():
                     table = e["symbolTable"]
             rel = os.path.relpath(src, D.REPO)
             for name, sym in table.items():
-                loc = sym.get("location", {}).get("namedSub", {}).get("file", {}).get("id", "")
-                if not loc.startswith(D.REPO):
-                    continue
+                loc = sym.get("location", {}).get("file", "") if isinstance(sym.get("location"), dict) else ""
+                if not loc or loc.startswith("<") or not os.path.abspath(os.path.join(sym["location"].get("workingDirectory", ""), loc)).startswith(D.REPO):
+                    continue                      # CBMC built-ins and system headers
                 if sym.get("isStaticLifetime") and not sym.get("isType") and sym.get("isLvalue") and not sym.get("isFunction", False) \
                         and sym.get("type", {}).get("id") != "code":
                     facts += 1
